@@ -81,7 +81,7 @@ def run(ctx):
     if not exe:
         ctx.tie_broken("extraction-measure", log)
         return
-    n = 80 if ctx.quick else 1500
+    n = 80 if ctx.quick else 640
     with cf.ThreadPoolExecutor(max_workers=10) as ex:
         results = list(ex.map(one, [(ctx.seed, i) for i in range(n)]))
     lines, owners = [], []
@@ -102,6 +102,20 @@ def run(ctx):
                 eng = cfg if cfg in ("lookahead", "lookahead-deep", "picky", "ghost") else "cdcl:" + cfg
                 sig = "no-answer:%s%s" % (eng, ":incremental" if "(push" in t else "")
                 pending.setdefault(sig, []).append((t, cfg, meta["logic"]))
+    # structured families with a size parameter (lib/scaling.py): each is decided in well under a second by the unchanged solver
+    import scaling
+    sjobs = []
+    for fam, (fn, sizes) in sorted(scaling.FAM.items()):
+        for n in sizes:
+            for v in range(2 if ctx.quick else 8):
+                r = random.Random(ctx.seed * 977 + v * 31 + n + sum(map(ord, fam)))
+                sjobs.append((fam, n, fn(r, n)))
+    with cf.ThreadPoolExecutor(max_workers=6) as ex:
+        srcs = list(ex.map(lambda j: vlib.run_opensmt(j[2], timeout=10)[0], sjobs))
+    for (fam, n, t), rc in zip(sjobs, srcs):
+        ctx.case(key=("scaling", t), nontrivial=True, kind="scaling:%s:%d" % (fam, n), sample=dict(family=fam, size=n, rc=rc) if n == scaling.FAM[fam][1][0] else None)
+        if rc == -9:
+            pending.setdefault("no-answer:scaling:%s" % fam, []).append((t, "default", "family %s size %d" % (fam, n)))
     # second opinion for the first timeout of each signature: alone-ish (all in parallel), generous limit
     firsts = [(sig, v[0]) for sig, v in sorted(pending.items())]
     with cf.ThreadPoolExecutor(max_workers=8) as ex:
@@ -109,7 +123,7 @@ def run(ctx):
     for (sig, (t, cfg, logic)), rc2 in zip(firsts, again):
         ctx.count("timeouts:" + sig, len(pending[sig]))
         if rc2 == -9:
-            ctx.violation(sig, "check-sat does not return within 40 s on a %s instance with <= 12 atoms (config %s) that the default engine decides instantly" % (logic, cfg),
+            ctx.violation(sig, "check-sat does not return within 40 s on a %s instance (config %s) that the default engine of the unchanged tree decides instantly" % (logic, cfg),
                           dict(script=t, config=cfg, logic=logic))
         else:
             ctx.count("slow-but-returned")
